@@ -48,6 +48,28 @@ std::string with_version(const std::string& file, int which, uint64_t value, boo
     return ref::encode_preferred(root);
 }
 
+// the same capture settings on another host: Storage parameters untouched, one member of every Collection parameters map
+// changed (or the map added) - two inputs that a merge must keep apart although their Storage parameters are equal
+std::string with_other_collection(const std::string& file, unsigned member, const std::string& text, uint64_t number) {
+    ref::Node root = ref::Decoder(file).parse_all();
+    ref::Node& pre = root.kids.at(1);
+    ref::Node value = (member == 8 || member == 9 || member == 7) ? ref::Node::text_(text) : ref::Node::uint_(number);
+    for (size_t i = 0; i + 1 < pre.kids.size(); i += 2) {
+        if (!(pre.kids[i].is_uint() && pre.kids[i].arg == 3)) continue;
+        for (ref::Node& bp : pre.kids[i + 1].kids) {
+            ref::Node* cp = nullptr;
+            for (size_t j = 0; j + 1 < bp.kids.size(); j += 2)
+                if (bp.kids[j].is_uint() && bp.kids[j].arg == 1) cp = &bp.kids[j + 1];
+            if (!cp) { ref::Node m = ref::Node::map_(); m.put((int64_t)member, value); bp.put(1, m); continue; }
+            bool found = false;
+            for (size_t j = 0; j + 1 < cp->kids.size(); j += 2)
+                if (cp->kids[j].is_uint() && cp->kids[j].arg == member) { cp->kids[j + 1] = value; found = true; }
+            if (!found) cp->put((int64_t)member, value);
+        }
+    }
+    return ref::encode_preferred(root);
+}
+
 }  // namespace
 
 void sim::engine_tools(RunCtx& cx) {
@@ -82,6 +104,22 @@ void sim::engine_tools(RunCtx& cx) {
             }
             case 5: if (!all.empty()) { in = all[r.below(all.size())]; in.kind = "listed-twice(" + in.kind + ")"; break; }
                     // fallthrough
+            case 6: case 7: {
+                // an earlier valid input once more, as captured on another host: equal Storage, other Collection parameters
+                std::vector<size_t> cand;
+                for (size_t j = 0; j < all.size(); j++) if (all[j].kind.compare(0, 5, "valid") == 0 && !all[j].bytes.empty()) cand.push_back(j);
+                if (kind != 5 && !cand.empty()) {
+                    static const unsigned MEMBER[] = {9, 9, 8, 7, 0, 1, 2, 2};
+                    unsigned member = MEMBER[r.below(8)];
+                    try {
+                        in.bytes = with_other_collection(all[cand[r.below(cand.size())]].bytes, member, "other-host-" + std::to_string(k), 77000 + k);
+                        in.kind = "valid-same-storage-other-collection";
+                        cx.ctr->add("probe.input_same_storage_other_collection");
+                        break;
+                    } catch (std::exception&) {}
+                }
+                in.kind = "valid"; in.bytes = file; break;
+            }
             default: in.kind = "valid"; in.bytes = file; break;
         }
         // a quarter of the valid inputs come from a producer that does not de-duplicate its block tables (equal entries, references
